@@ -52,7 +52,8 @@ pub open spec fn gs_inv<M: Math, A: MassMatrixAdaptStrategy<M>>(s: GlobalStrateg
     &&& gs_cfg_ok(s)
     &&& strat_wf(s.step_size)
     &&& s.last_update <= draw
-    &&& s.mass_matrix_adapt.bg().len() <= draw
+    // (the estimator's init pushes the start point, so a window may hold one sample more than draws were made)
+    &&& s.mass_matrix_adapt.bg().len() <= draw + 1
     &&& s.current_window_size as int <= max_u(s.options.mass_matrix_switch_freq as int, s.num_tune as int)
     &&& strat_budget(s.step_size) <= draw + 1
 }
